@@ -30,6 +30,10 @@ type dropOK struct {
 type dropOpts struct {
 	// acceptSentinel: branch `errors.Is(e, S)`==true consumes e.
 	acceptSentinel func(sentinel string) bool
+	// acceptSentinelFor: like acceptSentinel but may look at the call whose error is consumed (nil: not used).
+	acceptSentinelFor func(sentinel string, call ssa.CallInstruction) bool
+	// noOverride: another non-nil error returned in place of the call's error does not count as propagation.
+	noOverride bool
 	// only: restrict to calls for which it returns true (nil = all fallible calls).
 	only func(c ssa.CallInstruction) bool
 }
@@ -335,7 +339,7 @@ func dropCheck(p *load.Program, fn *ssa.Function, opts dropOpts) (bad []dropFind
 				Branch: func(s *ssax.PathState, cond ssa.Value, taken bool) {
 					cnd, val := ssax.StripNot(cond, taken)
 					if ev, sent, ok := isErrorsIs(cnd); ok && val && s.Resolve(ev) == e {
-						if opts.acceptSentinel != nil && opts.acceptSentinel(sent) {
+						if (opts.acceptSentinel != nil && opts.acceptSentinel(sent)) || (opts.acceptSentinelFor != nil && opts.acceptSentinelFor(sent, ci)) {
 							s.Counts["done"] = 1
 						}
 					}
@@ -365,7 +369,7 @@ func dropCheck(p *load.Program, fn *ssa.Function, opts dropOpts) (bad []dropFind
 					if rv == e || ssax.Unwrap(rv) == e {
 						return
 					}
-					if s.NilOf(rv) == ssax.NonNil {
+					if s.NilOf(rv) == ssax.NonNil && !opts.noOverride {
 						return // another, definitely non-nil error takes precedence
 					}
 					// … also through a wrapper that returns non-nil whenever its error argument is non-nil
